@@ -383,6 +383,15 @@ func ConfigString(r *rand.Rand, def string, attr bool) (string, string) {
 			return strings.TrimSuffix(def, "/") + "#", "near-default"
 		}
 	}
+	if r.IntN(10) == 0 {
+		// the short names of SAML's own vocabulary (what a URN ends in): a value is a value, not an abbreviation
+		if def != "" && r.IntN(3) == 0 {
+			if i := strings.LastIndexAny(def, ":/#"); i >= 0 && i+1 < len(def) {
+				return def[i+1:], "saml-short-name"
+			}
+		}
+		return pick(r, samlShortNames), "saml-short-name"
+	}
 	for {
 		v, c := RandValue(r)
 		if c == "long" && r.IntN(4) != 0 {
@@ -397,3 +406,12 @@ func ConfigString(r *rand.Rand, def string, attr bool) (string, string) {
 		return v, c
 	}
 }
+
+// samlShortNames are the last segments of the URNs the SAML specifications define (authentication context classes,
+// NameID formats, status codes, bindings, comparison types, consent, logout reasons).
+var samlShortNames = []string{"InternetProtocol", "InternetProtocolPassword", "Kerberos", "MobileOneFactorUnregistered", "MobileTwoFactorUnregistered", "MobileOneFactorContract", "MobileTwoFactorContract",
+	"Password", "PasswordProtectedTransport", "PreviousSession", "X509", "PGP", "SPKI", "XMLDSig", "Smartcard", "SmartcardPKI", "SoftwarePKI", "Telephony", "NomadTelephony", "PersonalTelephony",
+	"AuthenticatedTelephony", "SecureRemotePassword", "TLSClient", "TimeSyncToken", "unspecified",
+	"emailAddress", "X509SubjectName", "WindowsDomainQualifiedName", "kerberos", "entity", "persistent", "transient", "encrypted",
+	"Success", "Requester", "Responder", "VersionMismatch", "AuthnFailed", "NoPassive", "PartialLogout", "RequestDenied", "UnknownPrincipal",
+	"HTTP-POST", "HTTP-Redirect", "HTTP-Artifact", "SOAP", "PAOS", "URI", "exact", "minimum", "maximum", "better", "obtained", "prior", "user", "admin", "true", "false", "1", "0"}
